@@ -56,7 +56,10 @@ def case_st(draw):
             for _ in range(m):
                 seq += 1
                 p = draw(payload_st)
-                msgs.append(rm.tag(tagged(k[0], seq, p)))
+                if draw(st.integers(0, 11)) == 0:
+                    msgs.append(rm.tag(draw(st.sampled_from([b'', '', b'\x00']))))   # untagged
+                else:
+                    msgs.append(rm.tag(tagged(k[0], seq, p)))
             steps.append({'do': k, 'msgs': msgs, 'settle': draw(st.sampled_from([True, True, False]))})
         elif k == 'idle':
             steps.append({'do': 'idle', 'cycles': draw(st.sampled_from([1, 2, 10, 20, 50]))})
